@@ -23,6 +23,9 @@ def dispatch(prop, tier):
     if prop == "C11":
         from . import check_codec
         return check_codec.run(prop, tier)
+    if prop == "C12":
+        from . import check_names
+        return check_names.run(prop, tier)
     if prop == "C17":
         from . import check_part
         return check_part.run(prop, tier)
